@@ -242,6 +242,15 @@ func (a *segment) Mutate(operation uint64, key, val []byte) error {
 }
 
 func (a *segment) mutate(operation uint64, key, val []byte) error {
+	// Reject oversize input before copying it, so that a rejected
+	// operation leaves no bytes behind in the (pre-allocated) buffer.
+	if len(key) > maxKeyLength {
+		return ErrKeyTooLarge
+	}
+	if len(val) > maxValLength {
+		return ErrValueTooLarge
+	}
+
 	keyStart := len(a.buf)
 	a.buf = append(a.buf, key...)
 	keyLength := len(a.buf) - keyStart
